@@ -35,6 +35,7 @@ ARTICULATIONS = [
     "strong-accent",
     "tenuto",
     "unstress",
+    "soft-accent",
 ]
 
 
